@@ -121,4 +121,81 @@ theorem mem_runW {ι : Type} (emit : ι → Nat → List DAssign) (xs : List ι)
       · exact Or.inl (Or.inl h2)
       · exact Or.inr ⟨x, u, h1, h2⟩
 
+/-! ### the four phases of `genLinks` -/
+
+def emitG (d : Dragonfly) (x : Nat × Nat × Nat) (uid : Nat) : List DAssign :=
+  [⟨x.1 * d.B + x.2.2, .green x.2.1, .green (x.1 % d.C) x.2.1 x.2.2 uid false⟩,
+   ⟨x.1 * d.B + x.2.1, .green x.2.2, .green (x.1 % d.C) x.2.1 x.2.2 uid true⟩]
+
+def emitK (d : Dragonfly) (x : Nat × Nat × Nat × Nat) (uid : Nat) : List DAssign :=
+  [⟨x.1 * d.B * d.C + x.2.2.1 * d.B + x.2.2.2, .black x.2.1, .black x.1 x.2.1 x.2.2.1 x.2.2.2 uid false⟩,
+   ⟨x.1 * d.B * d.C + x.2.1 * d.B + x.2.2.2, .black x.2.2.1, .black x.1 x.2.1 x.2.2.1 x.2.2.2 uid true⟩]
+
+def emitB (d : Dragonfly) (x : Nat × Nat) (uid : Nat) : List DAssign :=
+  [⟨x.2 * d.B * d.C + x.1, .blue, .blue x.1 x.2 (x.1 * d.B * d.C + x.2) (x.2 * d.B * d.C + x.1) uid false⟩,
+   ⟨x.1 * d.B * d.C + x.2, .blue, .blue x.1 x.2 (x.1 * d.B * d.C + x.2) (x.2 * d.B * d.C + x.1) uid true⟩]
+
+def greenIdx (d : Dragonfly) : List (Nat × Nat × Nat) :=
+  nest (List.range' 0 (d.G * d.C - 0)) (fun _ => nest (List.range' 0 (d.B - 0)) (fun j => List.range' (j + 1) (d.B - (j + 1))))
+
+def blackIdx (d : Dragonfly) : List (Nat × Nat × Nat × Nat) :=
+  nest (List.range' 0 (d.G - 0)) (fun _ => nest (List.range' 0 (d.C - 0)) (fun j =>
+    nest (List.range' (j + 1) (d.C - (j + 1))) (fun _ => List.range' 0 (d.B - 0))))
+
+def blueIdx (d : Dragonfly) : List (Nat × Nat) :=
+  nest (List.range' 0 (d.G - 0)) (fun i => List.range' (i + 1) (d.G - (i + 1)))
+
+/-- the local-link phase -/
+def localPhase (d : Dragonfly) : Nat × List DAssign :=
+  forRange 0 d.nRouters (fun i s =>
+    forRange 0 d.N (fun n (s : Nat × List DAssign) =>
+      let (uid, as) := s
+      let up := DLink.localL i n uid true
+      let dn := DLink.localL i n uid false
+      let as := ⟨i, .node (n * d.lpl), up⟩ :: as
+      let as := if d.split then ⟨i, .node (n * d.lpl + 1), dn⟩ :: as else as
+      (uid + 1, as)) s) (d.uidOff, [])
+
+theorem greenPhase (d : Dragonfly) (s : Nat × List DAssign) :
+    forRange 0 (d.G * d.C) (fun i s =>
+      forRange 0 d.B (fun j s =>
+        forRange (j + 1) d.B (fun k (s : Nat × List DAssign) =>
+          let (uid, as) := s
+          (uid + 1, ⟨i * d.B + k, .green j, .green (i % d.C) j k uid false⟩ ::
+                    ⟨i * d.B + j, .green k, .green (i % d.C) j k uid true⟩ :: as)) s) s) s
+    = runW (emitG d) (greenIdx d) s := by
+  simp only [forRange_eq_foldl]
+  simp only [foldl_nest]
+  rfl
+
+theorem blackPhase (d : Dragonfly) (s : Nat × List DAssign) :
+    forRange 0 d.G (fun i s =>
+      forRange 0 d.C (fun j s =>
+        forRange (j + 1) d.C (fun k s =>
+          forRange 0 d.B (fun l (s : Nat × List DAssign) =>
+            let (uid, as) := s
+            (uid + 1, ⟨i * d.B * d.C + k * d.B + l, .black j, .black i j k l uid false⟩ ::
+                      ⟨i * d.B * d.C + j * d.B + l, .black k, .black i j k l uid true⟩ :: as)) s) s) s) s
+    = runW (emitK d) (blackIdx d) s := by
+  simp only [forRange_eq_foldl]
+  simp only [foldl_nest]
+  rfl
+
+theorem bluePhase (d : Dragonfly) (s : Nat × List DAssign) :
+    forRange 0 d.G (fun i s =>
+      forRange (i + 1) d.G (fun j (s : Nat × List DAssign) =>
+        let (uid, as) := s
+        let ri := i * d.B * d.C + j
+        let rj := j * d.B * d.C + i
+        (uid + 1, ⟨rj, .blue, .blue i j ri rj uid false⟩ :: ⟨ri, .blue, .blue i j ri rj uid true⟩ :: as)) s) s
+    = runW (emitB d) (blueIdx d) s := by
+  simp only [forRange_eq_foldl]
+  simp only [foldl_nest]
+  rfl
+
+theorem genLinks_eq (d : Dragonfly) :
+    d.genLinks = runW (emitB d) (blueIdx d) (runW (emitK d) (blackIdx d) (runW (emitG d) (greenIdx d) (localPhase d))) := by
+  rw [← greenPhase, ← blackPhase, ← bluePhase]
+  rfl
+
 end SgVerif.C26
